@@ -109,6 +109,20 @@ def _half(draw):
 
 
 @st.composite
+def _sharp_end(draw):
+    """q' = p, p' = -W(t) q with W ramping up sharply at 96 % of the span: the clipped last step of the call is rejected and
+    retried by the adaptive methods (embedded pairs, Richardson wrappers of explicit / splitting / implicit bases)"""
+    method = draw(st.sampled_from(["RK45CKSolver", "DOPRI45", "HeunEulerSolver", "RK8713MSolver", "Rich2:RK4Solver", "Rich3:ABAs5o6HSolver", "Rich2:BABs9o7HSolver",
+                                   "Rich3:SymplecticEulerSolver", "Rich2:ImplicitMidpoint", "Rich3:MidpointSolver"]))
+    t0 = draw(st.sampled_from([0.0, -3.0, 10.0]))
+    L = draw(st.sampled_from([1.0, 2.0, 0.5]))
+    sgn = draw(st.sampled_from([1.0, 1.0, -1.0]))
+    return dict(part="sharp_end", method=method, dtype="float64", t0=t0, tf=t0 + sgn * L, dt=L * draw(st.sampled_from([0.3, 0.45, 0.24, 0.11])),
+                amp=draw(st.sampled_from([50.0, 500.0, 5000.0])), width=draw(st.sampled_from([0.01, 0.003, 0.03])), where=draw(st.sampled_from([0.96, 0.9, 0.985])),
+                rtol=draw(st.sampled_from([1e-4, 1e-6])), y0=[1.0, 0.0])
+
+
+@st.composite
 def _long(draw):
     method = draw(st.sampled_from(["EulerSolver", "HeunsSolver", "MidpointSolver", "SymplecticEulerSolver"]))
     nsteps = draw(st.integers(5001, 12000))
@@ -124,10 +138,55 @@ def parts(tier):
     return [Part("runs", strategy=_runs(), examples=1500 if q else 30000, timeout=300),
             Part("resolution", strategy=_resolution(), examples=200 if q else 3000, timeout=300),
             Part("half", strategy=_half(), examples=200 if q else 3000, timeout=300),
+            Part("sharp_end", strategy=_sharp_end(), examples=160 if q else 3000, timeout=300),
             Part("long", strategy=_long(), examples=8 if q else 64, timeout=600, shards=8 if q else 16)]
 
 
+def _check_sharp_end(case):
+    import desolver as de
+    method = case["method"]
+    fam = M.family(M.get(method))
+    attrs = dict(method=method, family=fam, dtype="float64")
+    t0, tf = case["t0"], case["tf"]
+    ts = t0 + case["where"] * (tf - t0)
+    wdt = case["width"] * abs(tf - t0)
+    amp = case["amp"]
+
+    def rhs(t, y, **kw):
+        return np.array([y[1], -(1.0 + 0.5 * amp * (1.0 + np.tanh((t - ts) / wdt))) * y[0]])
+    a = de.OdeSystem(rhs, y0=np.array(case["y0"], dtype=np.float64), t=(t0, tf), dt=case["dt"], rtol=case["rtol"], atol=case["rtol"])
+    a.method = M.get(method)
+    attempts = []
+    integ = a.integrator
+    inner_name = "adaptive_richardson" if hasattr(integ, "adaptive_richardson") else "step"
+    inner = getattr(integ, inner_name)
+
+    def rec(rhs_, t_, y_, c_, h_):
+        attempts.append((float(t_), float(h_)))
+        return inner(rhs_, t_, y_, c_, h_)
+    setattr(integ, inner_name, rec)
+    err = traj.run_integrate(a, step_limit=3000)
+    labels = ["sharp_end:" + method]
+    if isinstance(err, traj.StepCap):
+        return [], dict(nontrivial=False, labels=labels + ["capped"])
+    if err is not None:
+        if isinstance(err.__cause__, de.exception_types.FailedToMeetTolerances):
+            return [], dict(nontrivial=False, labels=labels + ["reported_failure"])
+        return [V("integrate_raised", "{}: raised {!r} caused by {!r}".format(method, err, err.__cause__), fam + exc_sig(err), **attrs)], dict(nontrivial=False, labels=labels)
+    viols = traj.trajectory_invariants(a, t0, np.array(case["y0"], dtype=np.float64), [(0, len(a) - 1, tf, 1.0 if tf > t0 else -1.0)], np.float64, attrs)
+    # was a step that had been clipped to the remaining distance retried with a smaller one?
+    clipped_retry = False
+    for (t1, h1), (t2, h2) in zip(attempts, attempts[1:]):
+        if t1 == t2 and abs(abs(tf - t1) - abs(h1)) <= 1e-12 * max(1.0, abs(tf)) and abs(h2) < abs(h1):
+            clipped_retry = True
+    if clipped_retry:
+        labels.append("clipped_last_step_was_retried")
+    return viols, dict(nontrivial=clipped_retry, labels=labels)
+
+
 def check(case):
+    if case["part"] == "sharp_end":
+        return _check_sharp_end(case)
     import desolver as de
     dt = M.DTYPES[case["dtype"]]
     method = case["method"]
